@@ -81,14 +81,29 @@ def check_writer(ctx, m, fn: ast.FunctionDef, label: str, informational: bool = 
     n = 0
     # A5: the destination of a rename is never removed by the same writer
     dests = {source.src(rc.args[1]) for (_, rc) in rens}
+    # .. and the locals that name a state file (their definition mentions one of the file names): the rename may live in a helper
+    for nn in source.walk_own(fn):
+        if isinstance(nn, ast.Assign) and len(nn.targets) == 1 and isinstance(nn.targets[0], ast.Name) and any(
+                isinstance(k_, ast.Constant) and isinstance(k_.value, str) and any(k_.value.endswith(sn) for sn in STATE_NAMES) for k_ in ast.walk(nn.value)):
+            dests.add(nn.targets[0].id)
+
+    def removed_paths(c: ast.Call) -> Set[str]:
+        """what the first argument of a remove may denote: itself, or - for the variable of a loop over a display - the elements of the display"""
+        a0 = c.args[0]
+        out = {source.src(a0)}
+        if isinstance(a0, ast.Name):
+            for lp in source.ancestors(c):
+                if isinstance(lp, ast.For) and isinstance(lp.target, ast.Name) and lp.target.id == a0.id and isinstance(lp.iter, (ast.Tuple, ast.List, ast.Set)):
+                    out |= {source.src(e) for e in lp.iter.elts}
+        return out
     for c in source.calls_in(fn, include_nested=True):
         cn = call_name(c) or ""
-        if cn in ("os.remove", "os.unlink", "os.truncate", "shutil.rmtree") and c.args and source.src(c.args[0]) in dests:
+        if cn in ("os.remove", "os.unlink", "os.truncate", "shutil.rmtree") and c.args and removed_paths(c) & dests:
             ctx.ob("C14.A5-destination-never-removed", c, False,
                    "%s: %s removes the state file before the temporary file is renamed over it: a crash (or a failing rename, whose "
                    "error is only collected) between the two leaves no version of the file at all" % (label, short(c, 60)),
                    construct="%s in %s" % (short(c, 80), source.qualname(fn)))
-    if dests and not any((call_name(c) or "") in ("os.remove", "os.unlink", "os.truncate", "shutil.rmtree") and c.args and source.src(c.args[0]) in dests
+    if dests and not any((call_name(c) or "") in ("os.remove", "os.unlink", "os.truncate", "shutil.rmtree") and c.args and removed_paths(c) & dests
                          for c in source.calls_in(fn, include_nested=True)):
         ctx.ob("C14.A5-destination-never-removed", fn, True, "%s: the state file is replaced only by the rename" % label,
                construct="no remove of %s in %s" % (sorted(dests), source.qualname(fn)))
